@@ -85,10 +85,9 @@ class SymEnv(Env):
 
     def hole_bytes(self, name, n):
         """n symbolic bytes (python list of SymInt, each 0..255)"""
-        out = []
-        for k in range(n):
-            v = sym.sym_int("h_%s_%d" % (name, k), 0, 255)
-            out.append(v)
+        out = [SymInt(z3.Int("h_%s_%d" % (name, k))) for k in range(n)]
+        if out:
+            self.path.assume(z3.And(*[z3.And(v.e >= 0, v.e <= 255) for v in out]), seqfree=True)
         self.hole_terms[name] = ("bytes", [v.e for v in out])
         return out
 
